@@ -36,11 +36,27 @@ def ended_streams(ops):
     return ended, closed
 
 
+def fired_faults(impl):
+    """injected transport faults that fired (summary token `fired=[…]`): a connection error means
+    the connection has failed (SimQuic makes it sticky); a stream error on a read ends that stream"""
+    ended, closed = set(), False
+    m = re.search(r"fired=\[([^\]]*)\]", impl)
+    for lab in (m.group(1).split(",") if m and m.group(1) else []):
+        head, _, err = lab.partition(":")
+        if err[:1] in ("C", "T", "I", "U"):
+            closed = True
+        elif head.startswith("rd"):
+            mm = re.match(r"^rd(\d+)", head)
+            if mm:
+                ended.add(int(mm.group(1)))
+    return ended, closed
+
+
 class C06(Prop):
     id = "C06"
     thorough_rounds = 10   # thorough tier: this many independently seeded rounds of the random generators (duplicates dropped)
     modules = ["H3.Props.C06", "H3.Lemmas.GenAgreeFrame", "H3.Lemmas.GenAgreeReq", "H3.Lemmas.GenAgreeCtl"]
-    engines = ["adv"]
+    engines = ["adv", "flt"]
     design_ref = "DESIGN.md section 7, C06"
     level_text = ("Lean theorems: no step of the receive-path models (frame layer, request receive machine, uni-stream type "
                   "resolution, control machine, QPACK/field parsing) returns the explicit panic outcome under the documented call "
@@ -53,7 +69,11 @@ class C06(Prop):
                   "are ON in the harness build so wrap-arounds would surface as panics; memory exhaustion is out of scope")
     rule = ("adversarial peer scripts: grammar-mutated and arbitrary bytes on request, control, QPACK and unknown streams, random "
             "chunking, FIN/RESET/STOP_SENDING/close/timeout injected at every step index of base scenarios, both roles, documented "
-            "call patterns; non-trivial = at least one API call completed with a result other than no-task")
+            "call patterns; the same exchanges over a failing transport: faults (every ConnectionErrorIncoming / StreamErrorIncoming "
+            "variant) armed at every step index and at random positions on every transport call site (open, send_data, poll_ready, "
+            "poll_finish, accept, poll_data; k-th call), also before the connection is built; engine `flt`: the systematic fault "
+            "scenarios of tools/props/faults.py judged by H3.Spec.Faults (nothing pending once the transport has failed, no "
+            "unexplained error); non-trivial = at least one API call completed with a result other than no-task")
     trusted = ["the decision tables of the receive paths (H3.Gen.FrameDispatch, ReqArms, FirstFrame, CtlArms, UniArms, FrameErrCodes) are re-read from the sources on this run and the models this property's theorems are about are proved to follow them (H3.Lemmas.GenAgreeFrame/GenAgreeReq/GenAgreeCtl, rebuilt on this run)"]
     assumptions = ["'pending forever' is judged at executor quiescence after the script ended what the call waits on (R-06)"]
 
@@ -65,20 +85,29 @@ class C06(Prop):
         if impl.startswith("bad-op"):
             return impl
         ended, closed = ended_streams(ops)
+        e2, c2 = fired_faults(impl)
+        ended, closed = ended | e2, closed or c2
         m = re.search(r"pending=\[([^\]]*)\]", impl)
         pend = [p for p in (m.group(1).split(",") if m and m.group(1) else [])]
         hang = []
         # the peer's control stream (first octet 0x00 delivered) finished or reset by the script: a closed critical
         # stream must end accept / wait_idle with H3_CLOSED_CRITICAL_STREAM, whatever else the endpoint waits for
+        # (judged only on lines without injected transport faults - those are engine flt's business - and only for a
+        # stream the script really opened before it delivered bytes on it)
         ctl_ended = False
         seen = {}
+        opened = set()
+        faults_armed = any(op.startswith("!") for op in ops)
         for op in ops:
+            m = re.match(r"^o(\d+)$", op)
+            if m:
+                opened.add(int(m.group(1)))
             m = re.match(r"^s(\d+):([0-9a-f]+)$", op)
-            if m and int(m.group(1)) % 4 in (2, 3):
+            if m and int(m.group(1)) % 4 in (2, 3) and int(m.group(1)) in opened:
                 seen.setdefault(int(m.group(1)), "")
                 seen[int(m.group(1))] += m.group(2)
             m = re.match(r"^[fr](\d+)", op)
-            if m and seen.get(int(m.group(1)), "").startswith("00"):
+            if m and not faults_armed and seen.get(int(m.group(1)), "").startswith("00"):
                 ctl_ended = True
         for p in pend:
             task, cmd = p.split(".", 1)
@@ -93,10 +122,24 @@ class C06(Prop):
                 hang.append(p)
         return "panic=0 hang=[%s]" % ",".join(sorted(hang))
 
+    def project_all(self, lines, impls):
+        from props import faults
+        res = [None] * len(lines)
+        idx = [i for i, l in enumerate(lines) if l.startswith("flt")]
+        for i, p in zip(idx, faults.project_all([lines[i] for i in idx], [impls[i] for i in idx])):
+            res[i] = p
+        for i, l in enumerate(lines):
+            if res[i] is None:
+                res[i] = self.project(l, impls[i])
+        return res
+
     def klass_raw(self, line, raw):
-        """histogram key: role + the kinds of results the API calls produced + close codes"""
+        """histogram key: role + the kinds of results the API calls produced + close codes (+ the faults that fired)"""
         if " | " not in raw:
             return raw[:20]
+        if line.startswith("flt"):
+            return "flt %s" % line.split()[1] + " fired=[%s]" % ",".join(
+                sorted(set(re.sub(r"\d+", "", t[1:]) for t in raw.split(" | ")[0].split() if t.startswith("!"))))
         trace, summ = raw.split(" | ", 1)
         kinds = set()
         for t in trace.split():
@@ -105,11 +148,15 @@ class C06(Prop):
                 r = res.split(":")
                 kinds.add(op.split(".")[1] + "=" + ":".join(r[:3] if r[0] == "err" else r[:1]))
         m = re.search(r"closed=\[([^\]]*)\]", summ)
-        return "%s %s closed=[%s]" % (line.split()[1], ",".join(sorted(kinds))[:150], m.group(1) if m else "")
+        f = re.search(r"fired=\[([^\]]*)\]", summ)
+        fk = (" fired=[%s]" % ",".join(sorted(set(re.sub(r"\d+", "", x) for x in f.group(1).split(",") if x)))) if f else ""
+        return "%s %s closed=[%s]%s" % (line.split()[1], ",".join(sorted(kinds))[:150], m.group(1) if m else "", fk)
 
     def trivial_raw(self, line, raw):
         if raw.startswith("bad-op"):
             return True
+        if line.startswith("flt"):
+            return not any(t.startswith("!") or t.startswith("close:") or "=err:" in t for t in raw.split(" | ")[0].split())
         trace = raw.split(" | ")[0].split()
         return not any("=" in t and not t.endswith("=no-task") and ".build=" not in t for t in trace)
 
@@ -267,7 +314,58 @@ class C06(Prop):
                     ops.insert(rng.randrange(1, len(ops) + 1), rng.choice(faults_conn))
                 rng_ops = list(ops)
                 L.append("adv %s %s %s" % (role, cfg, " ".join(rng_ops)))
+                # the same exchange over a transport that fails: one or two faults armed at random positions
+                # (any call site, any error, fired at the k-th call), some before the connection is built
+                if rng.random() < (0.6 if big else 0.5):
+                    L.append(self.with_faults(role, cfg, rng_ops, ctl, uni, bidi, rng))
+        # the transport fails at every step index of the base scenarios
+        for role in ("server", "client"):
+            for base in self.base_scenarios(rng, role)[:3 if big else 2]:
+                ctl = 2 if role == "server" else 3
+                sids = sorted({int(m.group(1)) for op in base for m in [re.match(r"^[os](\d+)", op)] if m})
+                for i in range(len(base) + 1):
+                    for f in self.fault_menu(role, sids, rng, 6 if big else 3):
+                        L.append("adv %s g1 %s" % (role, " ".join(base[:i] + [f] + base[i:])))
+        # whole connections whose transport fails, judged by the oracle H3.Spec.Faults (engine flt)
+        from props import faults
+        L += faults.cases(big, rng)
         return L
+
+    def fault_menu(self, role, sids, rng, n):
+        base = 3 if role == "server" else 2
+        conn_errs = ["T", "I", "U", "C256", "C%d" % (2**62 - 1)]
+        out = []
+        for _ in range(n):
+            r = rng.random()
+            sid = rng.choice(sids) if sids else 0
+            if r < 0.25:
+                site = rng.choice(["au", "ab"])
+                err = rng.choice(conn_errs)
+            elif r < 0.5:
+                site = "rd%d" % sid
+                err = rng.choice(conn_errs + ["K", "K", "X%d" % rng.choice([0, 7, 268])])
+            elif r < 0.8:
+                tgt = rng.choice([sid, sid, base, base + 4, base + 8, base + 12])
+                site = rng.choice(["sd", "pr", "pf"]) + str(tgt)
+                err = rng.choice(conn_errs + ["K", "K", "X%d" % rng.choice([0, 7, 268])])
+            else:
+                site = rng.choice(["ou%d" % rng.randrange(0, 5), "ob%d" % rng.randrange(0, 2), "ou", "ob"])
+                err = rng.choice(conn_errs + ["K", "X7"])
+            skip = rng.choice([0, 0, 0, 1, 2, 3])
+            out.append("!%s%s:%s" % (site, "@%d" % skip if skip else "", err))
+        return out
+
+    def with_faults(self, role, cfg, ops, ctl, uni, bidi, rng):
+        sids = [ctl] + list(uni) + list(bidi)
+        fs = self.fault_menu(role, sids, rng, rng.choice([1, 1, 2]))
+        task = "conn" if role == "server" else "drv"
+        if rng.random() < 0.3:
+            # armed before the connection is built
+            return "adv %s %s,hold=1 %s %s.B %s" % (role, cfg, " ".join(fs), task, " ".join(ops))
+        ops = list(ops)
+        for f in fs:
+            ops.insert(rng.randrange(0, len(ops) + 1), f)
+        return "adv %s %s %s" % (role, cfg, " ".join(ops))
 
     # ---- the panic-site inventory is part of the check (DESIGN section 7, C06: "tie to source")
     def extra(self, tier, rng, ctx):
